@@ -262,7 +262,7 @@ class AbstractSegmenter(object):
         spaces at estimated word boundaries.
 
         """
-        phoneseq = tuple(utterance.replace(self.wordsep, ' ').split())
+        phoneseq = tuple(utterance.split())
 
         # the words as lists of units, a new word starts at each boundary
         words = [[phoneseq[0]]]
